@@ -258,7 +258,10 @@ pub fn configs(quick: bool) -> Vec<Config> {
     if !quick {
         v.push(Config { nodes: 3, pids: vec![100, 200, 300], trigger: Trigger::JoinDuringForcedElection(0) });
         v.push(Config { nodes: 4, pids: vec![100, 200, 300, 400], trigger: Trigger::JoinDuringFailover });
-        v.push(Config { nodes: 4, pids: vec![100, 200, 300, 400], trigger: Trigger::SecondPrimaryDies });
+        // (SecondPrimaryDies on 4 nodes was tried and withdrawn: under the default schedule, which builds the start
+        // state, the three survivors of the first death did not go quiet within 20000 steps - the schedule starves
+        // one node's deliveries while the other two multiply candidacies - and a start state that cannot be built is
+        // a machinery error, not a verdict)
         for i in [0, 2] {
             v.push(Config { nodes: 3, pids: vec![100, 200, 300], trigger: Trigger::ForceElection(i) });
         }
